@@ -176,3 +176,106 @@ package keeper
 //@   loop L1 invariant forall j int :: 0 <= j && j < len(list) ==> list[j] == rawget(DidBalances, itkey(j)) && itkey(j) == keyof(DidBalances, list[j].Did)
 //@   loop L1 invariant forall j int :: 0 <= j && j < len(list) ==> contains(list, list[j])
 //@   loop L1 decreases [C02.getall.didbalances.term] itlen() - itpos()
+
+// ---- DID registry (C17)
+
+// CAIP-10 account ids "<network>:<chain>:<address>": the three parts are functions of the string
+//@ ghost caipNetwork(string) string
+//@ ghost caipChain(string) string
+//@ ghost caipAddress(string) string
+
+// parseAcccountId: regular-expression check and split at ':' (regexp and strings.Split are outside the verified subset)
+//@ func parseAcccountId(accountId) (caip10, err)
+//@   trusted assumed: a string accepted by the CAIP-10 regular expression has exactly three ':'-separated parts
+//@   modifies nothing
+//@   ensures [C17.caip] err == nil ==> caip10.Network == caipNetwork(accountId) && caip10.Chain == caipChain(accountId) && caip10.Address == caipAddress(accountId)
+//@       && accountId == caipNetwork(accountId) + ":" + caipChain(accountId) + ":" + caipAddress(accountId)
+
+// signedByAccount(accountId, message): message carries a valid signature by the key of that account (meaning given only by the
+// assumed contract of verifyBindingProof: this is all the signature check establishes - the signed text is proof.Message)
+//@ ghost signedByAccount(string, string) bool
+// messageAccepts(message, did, timestamp): the signed text states that the account accepts that DID at that time
+//@ ghost messageAccepts(string, string, int) bool
+//@ func (Keeper) verifyBindingProof(ctx, caip10, proof) (err)
+//@   trusted assumed from secp256k1 / keccak / EIP-191 signature verification (cryptography outside the subset)
+//@   modifies nothing
+//@   ensures [C17.proof] err == nil ==> proof != nil && signedByAccount(caip10.Network + ":" + caip10.Chain + ":" + caip10.Address, proof.Message)
+
+// docIdOf(keys, timestamp): the hash that names a sid document
+//@ func CalculateDocId(keys, timestamp) (id, err)
+//@   trusted assumed: deterministic hash of the key set and the timestamp (json.Marshal of a map and sha256 are outside the subset)
+//@   modifies nothing
+
+// UpdatePaymentAddress: a sid DID's payment address is one of its bound accounts on this chain; a key DID's payment address is
+// set once, by that address itself, and an address is linked to at most one key DID
+//@ func (msgServer) UpdatePaymentAddress(goCtx, msg) (resp, err)
+//@   requires msg != nil
+//@   modifies PaymentAddress[msg.Did], Kid[caipAddress(msg.AccountId)]
+//@   ensures [C17.pay.sid] err == nil && didMethod(msg.Did) == "sid" ==> caipNetwork(msg.AccountId) == "cosmos" && caipChain(msg.AccountId) == ChainID
+//@       && old(has(Did, msg.AccountId)) && old(Did[msg.AccountId].Did) == msg.Did
+//@       && has(PaymentAddress, msg.Did) && PaymentAddress[msg.Did].Address == caipAddress(msg.AccountId)
+//@       && old(has(Did, "cosmos:" + ChainID + ":" + msg.Creator)) && old(Did["cosmos:" + ChainID + ":" + msg.Creator].Did) == msg.Did
+//@   ensures [C17.pay.key] err == nil && didMethod(msg.Did) == "key" ==> caipAddress(msg.AccountId) == msg.Creator && !old(has(PaymentAddress, msg.Did))
+//@       && !old(has(Kid, msg.Creator)) && has(Kid, msg.Creator) && Kid[msg.Creator].Kid == msg.Did
+//@       && has(PaymentAddress, msg.Did) && PaymentAddress[msg.Did].Address == msg.Creator
+//@   ensures [C17.pay.keyfixed] old(has(PaymentAddress, msg.Did)) && didMethod(msg.Did) == "key" ==> err != nil
+//@   ensures [C17.pay.methods] err == nil ==> didMethod(msg.Did) == "sid" || didMethod(msg.Did) == "key"
+//@   ensures [C17.pay.err] err != nil ==> PaymentAddress[msg.Did] == old(PaymentAddress[msg.Did]) && (has(PaymentAddress, msg.Did) <==> old(has(PaymentAddress, msg.Did)))
+
+// Binding: an account is bound to a sid DID by a fresh proof signed with the account's key; once the DID exists only an
+// account already bound to it can add another; the first cosmos account becomes the payment address
+//@ func (msgServer) Binding(goCtx, msg) (resp, err)
+//@   requires msg != nil
+//@   modifies AccountAuth[msg.AccountAuth.AccountDid], AccountList[msg.Proof.Did], Did[msg.AccountId], AccountId[msg.AccountAuth.AccountDid],
+//@       SidDocument[msg.RootDocId], SidDocumentVersion[msg.RootDocId], PaymentAddress[msg.Proof.Did]
+//@   ensures [C17.bind.unique] err == nil ==> !old(has(Did, msg.AccountId)) && has(Did, msg.AccountId) && Did[msg.AccountId].Did == msg.Proof.Did && msg.Proof.Did == "did:sid:" + msg.RootDocId
+//@   ensures [C17.bind.signed] err == nil ==> signedByAccount(msg.AccountId, msg.Proof.Message) && u64(msg.Proof.Timestamp + 900) >= u64(unixOf(BlockTime))
+//@   ensures [C17.bind.accepts] err == nil ==> messageAccepts(msg.Proof.Message, msg.Proof.Did, msg.Proof.Timestamp)
+//@   ensures [C17.bind.creator] err == nil && old(has(SidDocumentVersion, msg.RootDocId)) ==>
+//@       old(has(Did, "cosmos:" + ChainID + ":" + msg.Creator)) && old(Did["cosmos:" + ChainID + ":" + msg.Creator].Did) == msg.Proof.Did
+//@   ensures [C17.bind.list] err == nil ==> has(AccountList, msg.Proof.Did) && contains(AccountList[msg.Proof.Did].AccountDids, msg.AccountAuth.AccountDid)
+//@       && (old(has(AccountList, msg.Proof.Did)) ==> !contains(old(AccountList[msg.Proof.Did].AccountDids), msg.AccountAuth.AccountDid))
+//@       && (forall x string :: old(has(AccountList, msg.Proof.Did)) && contains(old(AccountList[msg.Proof.Did].AccountDids), x) ==> contains(AccountList[msg.Proof.Did].AccountDids, x))
+//@   ensures [C17.bind.auth] err == nil ==> !old(has(AccountAuth, msg.AccountAuth.AccountDid)) && has(AccountAuth, msg.AccountAuth.AccountDid)
+//@       && has(AccountId, msg.AccountAuth.AccountDid) && AccountId[msg.AccountAuth.AccountDid].AccountId == msg.AccountId
+//@   ensures [C17.bind.payment] err == nil && !old(has(SidDocumentVersion, msg.RootDocId)) && caipNetwork(msg.AccountId) == "cosmos" && caipChain(msg.AccountId) == ChainID
+//@       && !old(has(PaymentAddress, msg.Proof.Did)) ==> has(PaymentAddress, msg.Proof.Did) && PaymentAddress[msg.Proof.Did].Address == caipAddress(msg.AccountId)
+//@   ensures [C17.bind.paykeep] old(has(PaymentAddress, msg.Proof.Did)) ==> has(PaymentAddress, msg.Proof.Did) && PaymentAddress[msg.Proof.Did] == old(PaymentAddress[msg.Proof.Did])
+//@   loop L1 invariant -1 <= rangeindex && rangeindex < len(accountList.AccountDids)
+//@   loop L1 invariant forall j int :: 0 <= j && j <= rangeindex ==> accountList.AccountDids[j] != accAuth.AccountDid
+
+//@ func inList(obj, list) (res)
+//@   modifies nothing
+//@   ensures [C17.inlist] res <==> contains(list, obj)
+//@   loop L1 invariant -1 <= rangeindex && rangeindex < len(list0)
+//@   loop L1 invariant forall j int :: 0 <= j && j <= rangeindex ==> list0[j] != obj0
+
+//@ func inUpdateList(did, list) (res)
+//@   requires forall j int :: 0 <= j && j < len(list) ==> list[j] != nil
+//@   modifies nothing
+//@   ensures [C17.inupdatelist] res ==> exists j int :: 0 <= j && j < len(list) && list[j].AccountDid == did
+//@   loop L1 invariant -1 <= rangeindex && rangeindex < len(list0)
+
+// Update: key rotation / unbinding by an account bound to the DID; the account that is the DID's payment address on this chain
+// cannot be unbound
+//@ func (msgServer) Update(goCtx, msg) (resp, err)
+//@   requires msg != nil
+//@   requires forall j int :: 0 <= j && j < len(msg.UpdateAccountAuth) ==> msg.UpdateAccountAuth[j] != nil
+//@   modifies *
+//@   ensures [C17.update.creator] err == nil ==> old(has(Did, "cosmos:" + ChainID + ":" + msg.Creator)) && old(Did["cosmos:" + ChainID + ":" + msg.Creator].Did) == msg.Did
+//@       && u64(msg.Timestamp + 900) >= u64(unixOf(BlockTime))
+//@   ensures [C17.update.payaddr] err == nil ==> old(has(PaymentAddress, msg.Did)) && has(PaymentAddress, msg.Did) && PaymentAddress[msg.Did] == old(PaymentAddress[msg.Did])
+//@   at RemoveDid assert [C17.update.keeppay] !(caipNetwork(accountId) == "cosmos" && caipChain(accountId) == ChainID && caipAddress(accountId) == PaymentAddress[msg.Did].Address)
+//@   loop L1 invariant -1 <= rangeindex
+//@   loop L2 invariant -1 <= rangeindex && rangeindex < len(removeList)
+//@   loop L2 invariant forall q int :: 0 <= q && q < len(removeAccId) ==>
+//@       !(caipNetwork(removeAccId[q]) == "cosmos" && caipChain(removeAccId[q]) == ChainID && caipAddress(removeAccId[q]) == payAddr.Address)
+//@   loop L3 invariant -1 <= rangeindex && rangeindex < len(removeAccId)
+//@   loop L3 invariant PaymentAddress[msg0.Did] == old(PaymentAddress[msg0.Did]) && has(PaymentAddress, msg0.Did)
+//@   loop L4 invariant -1 <= rangeindex
+//@   loop L4 invariant PaymentAddress[msg0.Did] == old(PaymentAddress[msg0.Did]) && has(PaymentAddress, msg0.Did)
+//@   loop L5 invariant -1 <= rangeindex && rangeindex < len(updateList)
+//@   loop L5 invariant PaymentAddress[msg0.Did] == old(PaymentAddress[msg0.Did]) && has(PaymentAddress, msg0.Did)
+//@   loop L6 invariant -1 <= rangeindex
+//@   loop L6 invariant PaymentAddress[msg0.Did] == old(PaymentAddress[msg0.Did]) && has(PaymentAddress, msg0.Did)
+//@   loop L7 invariant -1 <= rangeindex
